@@ -95,7 +95,7 @@ def _add_bin(pid, q=1, t=20):
     PROPS[pid]["rule"] += "; E-BIN stage: generated directives (flows/parallels in all spellings) processed by the freshly built cff binary, compiled and executed under rapid-drawn scenarios, same oracle evaluated on the event log of the generated code"
 
 
-for _p in ["C01", "C03", "C07", "C08", "C09"]:
+for _p in ["C01", "C03", "C05", "C06", "C07", "C08", "C09"]:
     _add_bin(_p)
 
 PROPS["C02"] = dict(
@@ -177,7 +177,7 @@ ENGINES = [
      "kind_free_text": "rapid, real goroutines and clock on 16 cores; -race flavour for C12; stateful histories for C06"},
 ]
 ENGINES += [
-    {"name": "E-BIN", "path": "gen/ebin_test.go", "serves_properties": ["C01", "C02", "C03", "C04", "C07", "C08", "C09", "C10", "C11", "C12", "C13", "C15", "C18"],
+    {"name": "E-BIN", "path": "gen/ebin_test.go", "serves_properties": ["C01", "C02", "C03", "C04", "C05", "C06", "C07", "C08", "C09", "C10", "C11", "C12", "C13", "C15", "C18", "C20"],
      "kind_free_text": "rapid outer loop: spec -> Go module (go 1.19) -> freshly built cff binary -> go test -c -> inner driver (rapid scenario search, reference interpreters in gen/rt)"},
 ]
 ENGINES += [
